@@ -218,6 +218,14 @@ pub struct ClientSpec {
     /// `cuts` stay hard
     #[serde(default)]
     pub coalesce: bool,
+    /// Login Acknowledged (and Client Information after its delay) are sent right behind the Encryption
+    /// Response instead of waiting for Login Success (a client that pipelines)
+    #[serde(default)]
+    pub early_ack: bool,
+    /// every frame's length prefix carries this many extra continuation groups (a non-minimal but
+    /// legal VarInt of at most five bytes, as some proxies write them)
+    #[serde(default)]
+    pub len_pad: u8,
     /// seed for the client's own padding / random tokens
     pub rng: u64,
 }
@@ -253,6 +261,8 @@ impl ClientSpec {
             close_on_end_ns: Some(0),
             preamble: None,
             coalesce: false,
+            early_ack: false,
+            len_pad: 0,
             rng: rng.next_u64(),
         }
     }
@@ -546,7 +556,22 @@ impl<'a> Engine<'a> {
     }
 
     fn send_packet(&mut self, kind: &'static str, id: i32, body: &[u8]) {
-        let f = codec::frame(id, body);
+        let mut f = codec::frame(id, body);
+        if self.spec.len_pad > 0 {
+            // re-encode the length prefix with extra continuation groups (value unchanged)
+            let mut r = Rd::new(&f);
+            let len = r.varint().unwrap_or(0);
+            let rest = f[r.p..].to_vec();
+            let mut p = codec::varint(len);
+            let want = (p.len() + self.spec.len_pad as usize).min(5);
+            while p.len() < want {
+                let l = p.len() - 1;
+                p[l] |= 0x80;
+                p.push(0x00);
+            }
+            p.extend_from_slice(&rest);
+            f = p;
+        }
         self.send_raw(kind, f, true);
     }
 
@@ -737,7 +762,7 @@ impl<'a> Engine<'a> {
             }
             "LoginSuccess" => {
                 self.phase = Phase::Config;
-                if reactive {
+                if reactive && !self.spec.early_ack {
                     self.at(
                         self.spec.ack_delay_ns,
                         Action::Send {
@@ -848,6 +873,13 @@ impl<'a> Engine<'a> {
                 let body = self.enc_response(&v);
                 self.send_packet("EncryptionResponse", 0x01, &body);
                 self.enable_crypto();
+                if self.spec.early_ack {
+                    self.at(self.spec.ack_delay_ns, Action::Send { kind: "LoginAck", id: 0x03, body: vec![] });
+                    if self.spec.send_info {
+                        let body = codec::client_info_body(&self.spec.locale, 10, 0, true, 0x7f, 1, false, true, 0);
+                        self.at(self.spec.ack_delay_ns + self.spec.info_delay_ns, Action::Send { kind: "ClientInfo", id: 0x00, body });
+                    }
+                }
             }
             Action::Extra(i) => {
                 let e = self.spec.extras[i].clone();
